@@ -78,7 +78,15 @@ def strategy(tier):
 
 
 def _cli_strategy(tier):
-    return _generated(tier).map(lambda c: dict(c, kind="cli", hashing=False, records={}))
+    @st.composite
+    def cli(draw):
+        c = draw(_generated(tier))
+        # hashing_cli: spec hashing switched on in a project that has no record file yet (every target is stale);
+        # step: seconds between two ticks of the mtime ladder (0.25 keeps all files within one second)
+        return dict(c, kind="cli", hashing=False, records={}, hashing_cli=draw(st.sampled_from([False, False, True])),
+                    step=draw(st.sampled_from([10, 0.25, 0.25])))
+
+    return cli()
 
 
 # the same generated DAGs on a real directory tree through `gwf status` / `gwf run`; here the mtime ladder
@@ -91,10 +99,12 @@ def run_cli(case):
 
     desc, vec = case["desc"], case["backend"]
     R = model.Resolved(desc)
-    want, subs = R.plan(R.by_name.keys(), {})
+    hc = bool(case.get("hashing_cli"))
+    want, subs = R.plan(R.by_name.keys(), {}, hc, {})
     viols = []
-    with project.Project(desc, backend="slurm") as proj:
-        proj.base_mtime = -10  # tick 1 -> 1970-01-01T00:00:00
+    with project.Project(desc, backend="slurm", config={"use_spec_hashes": True} if hc else None) as proj:
+        proj.tick_step = case.get("step", 10)
+        proj.base_mtime = -proj.tick_step  # tick 1 -> 1970-01-01T00:00:00
         proj.set_files(desc["files"])
         r = proj.gwf(["status"])
         if r.code != 0 or r.crashed:
@@ -117,6 +127,10 @@ def run_cli(case):
     labels = {"cli"}
     if any(t == 1 for t in desc["files"].values()):
         labels.add("epoch-mtime")
+    if case.get("step", 10) < 1:
+        labels.add("sub-second-mtimes")
+    if hc:
+        labels.add("hashing-no-record")
     return CaseResult(viols, nt, sorted(labels))
 
 
